@@ -690,6 +690,80 @@ theorem c15_target_chain_checked (cfg : Cfg) (req : Req) (m : Msg) (h : m.target
     ∃ e, injectOne cfg req m = .error (.err grpcUnknown e) := by
   unfold injectOne; rw [if_pos h]; exact ⟨_, rfl⟩
 
+/-! ## the guardian count on the wire is ONE byte — whatever limit the admin server applies
+
+`adminGuardianSetUpgradeToVAA` bounds the number of guardians by `common.MaxGuardianCount` (19 on the pinned tree, the model's
+`maxGuardianCount`; extracted as `Gen.C15.maxGuardianCount`).  The two theorems below are about the serializer and the contract's
+parser alone, for EVERY number of keys: up to 255 keys come back exactly, 256 or more are never read back.  So the limit must stay
+below 256 (`c15_admin_bound_fits_count_byte`), and the Spec the driver evaluates (`specOkF` on the emitted payload) does not depend
+on which limit the code uses. -/
+
+/-- 1…255 keys: the contract's parser reads back exactly the new index and the keys that were serialized. -/
+theorem c15_guardian_set_wire_roundtrip (keys : List Bytes) (idx : Nat) (hw : ∀ k ∈ keys, k.length = 20)
+    (h0 : 0 < keys.length) (h255 : keys.length ≤ 255) (hi : idx < 2 ^ 32) :
+    Ral.parseGuardianSet (serGuardianSetUpgrade keys idx) = some (idx, keys) := by
+  have hfl := flatten_length_const 20 keys hw
+  have hh : Ral.header Gen.C15.coreModule Gen.C15.actNewGuardianSet (serGuardianSetUpgrade keys idx) = true := by
+    unfold serGuardianSetUpgrade; rw [← unbe_coreModule]; exact header_ok _ _ _ coreModule_length
+  have h3 : Ral.slice (serGuardianSetUpgrade keys idx) Gen.C15.gsIndex = some (be 4 idx) :=
+    slice_3of4 _ _ _ _ 33 37 (by simp [coreModule_length]) (by simp)
+  have h4 : Ral.slice (serGuardianSetUpgrade keys idx) Gen.C15.gsCount = some (be 1 keys.length) :=
+    slice_4of5 _ _ _ _ _ 37 38 (by simp [coreModule_length]) (by simp)
+  have h6 : (serGuardianSetUpgrade keys idx).length = Gen.C15.gsSizeBase + keys.length * Gen.C15.gsSizeStride := by
+    simp only [serGuardianSetUpgrade, Gen.C15.gsSizeBase, Gen.C15.gsSizeStride, List.length_append, coreModule_length, be_length, hfl]
+    omega
+  have h5 : Ral.slice (serGuardianSetUpgrade keys idx) (Gen.C15.gsStoreFrom, (serGuardianSetUpgrade keys idx).length) =
+      some (be 1 keys.length ++ keys.flatten) := by
+    have hl : (serGuardianSetUpgrade keys idx).length = 37 + (be 1 keys.length ++ keys.flatten).length := by
+      simp only [serGuardianSetUpgrade, List.length_append, coreModule_length, be_length]; omega
+    rw [hl]
+    exact slice_4of4 _ _ _ _ 37 _ (by simp [coreModule_length]) rfl
+  have hn : unbe (be 1 keys.length) = keys.length := unbe_be_of_lt (by omega)
+  have hix : unbe (be 4 idx) = idx := unbe_be_of_lt (by omega)
+  have hch : Ral.chunks Gen.C15.gsKeyStride Gen.C15.gsKeyWidth keys.length ((be 1 keys.length ++ keys.flatten).drop Gen.C15.gsKeyBase) = keys := by
+    have : (be 1 keys.length ++ keys.flatten).drop Gen.C15.gsKeyBase = keys.flatten ++ [] := by
+      simp [Gen.C15.gsKeyBase]
+    rw [this]
+    exact chunks_flatten 20 keys hw []
+  have hnz : ¬ (keys.length = 0 ∨ (serGuardianSetUpgrade keys idx).length ≠ Gen.C15.gsSizeBase + keys.length * Gen.C15.gsSizeStride) := by omega
+  unfold Ral.parseGuardianSet
+  simp only [hh, h3, h4, hn, hix, Bool.not_true, Bool.false_eq_true, if_false, if_neg hnz]
+  rw [← h6, h5]
+  simp only [hch]
+
+/-- 256 or more keys: the one-byte count wraps (`uint8(len(b.Keys))`), the contract's size equation no longer holds (or the count
+reads 0) and `submitNewGuardianSet` aborts: such a payload is never what the operator asked for. -/
+theorem c15_guardian_count_over_one_byte (keys : List Bytes) (idx : Nat) (hw : ∀ k ∈ keys, k.length = 20) (h : 256 ≤ keys.length) :
+    Ral.parseGuardianSet (serGuardianSetUpgrade keys idx) = none := by
+  have hfl := flatten_length_const 20 keys hw
+  have h3 : Ral.slice (serGuardianSetUpgrade keys idx) Gen.C15.gsIndex = some (be 4 idx) :=
+    slice_3of4 _ _ _ _ 33 37 (by simp [coreModule_length]) (by simp)
+  have h4 : Ral.slice (serGuardianSetUpgrade keys idx) Gen.C15.gsCount = some (be 1 keys.length) :=
+    slice_4of5 _ _ _ _ _ 37 38 (by simp [coreModule_length]) (by simp)
+  have h6 : (serGuardianSetUpgrade keys idx).length = 38 + keys.length * 20 := by
+    simp only [serGuardianSetUpgrade, List.length_append, coreModule_length, be_length, hfl]
+    omega
+  have hn : unbe (be 1 keys.length) = keys.length % 256 := by rw [unbe_be]
+  have hlt : keys.length % 256 < 256 := Nat.mod_lt _ (by omega)
+  have hbad : (keys.length % 256 = 0 ∨ (serGuardianSetUpgrade keys idx).length ≠ Gen.C15.gsSizeBase + keys.length % 256 * Gen.C15.gsSizeStride) := by
+    right; rw [h6]; simp only [Gen.C15.gsSizeBase, Gen.C15.gsSizeStride]; omega
+  unfold Ral.parseGuardianSet
+  split
+  · rfl
+  · simp only [h3, h4, hn, if_pos hbad]
+
+/-- The limit the admin server applies on the current tree (extracted from `node/pkg/common/guardianset.go`) is the one the model
+uses and leaves the one-byte count intact. -/
+theorem c15_admin_bound_fits_count_byte :
+    maxGuardianCount = Gen.C15.maxGuardianCount ∧ Gen.C15.maxGuardianCount < 256 ^ Gen.C15.gsCountConv := by decide
+
+example : Ral.parseGuardianSet (serGuardianSetUpgrade (List.replicate 255 (List.replicate 20 7)) 4) = some (4, List.replicate 255 (List.replicate 20 7)) :=
+  c15_guardian_set_wire_roundtrip _ 4 (by intro k hk; rw [List.eq_of_mem_replicate hk]; exact List.length_replicate ..)
+    (by rw [List.length_replicate]; omega) (by rw [List.length_replicate]; omega) (by omega)
+example : Ral.parseGuardianSet (serGuardianSetUpgrade (List.replicate 256 (List.replicate 20 7)) 4) = none :=
+  c15_guardian_count_over_one_byte _ 4 (by intro k hk; rw [List.eq_of_mem_replicate hk]; exact List.length_replicate ..)
+    (by rw [List.length_replicate]; omega)
+
 /-- Non-vacuity: a two-message request (fee update to chain 255, consistency level 255 to chain 65535) is accepted on a
 concrete configuration and yields two VAAs. -/
 def sampleCfg : Cfg := ⟨1, List.replicate 31 0 ++ [4]⟩
